@@ -1145,6 +1145,15 @@ class Model:
                 self.comprehensions(first))))
         return cache[id(fd)]
 
+    def as_expression(self, fd):
+        """the value of a function that consists of single assignments, ifs and returns
+        only, as ONE (conditional) expression; None for anything else"""
+        mi = self.module_of(fd)
+        cls = self.enclosing_class(fd)
+        ci = next((c for c in self.classes.values() if c.node is cls), None) \
+            if cls is not None else None
+        return _ExprInliner(self, None, mi, ci)._as_expression(fd)
+
     def split_tuples(self, fd):
         """copy of ``fd`` with ``a, b = x, y`` written as two assignments"""
         new = _cp(fd)
